@@ -11,7 +11,7 @@ RULE = ("operation sequences (<=200 ops, offsets 0..300) over two Spans objects 
         "held bytes; distinct by op list.")
 LEVEL_TEXT = "Random operation histories compared step by step against an obviously-correct reference (set of ints, dict offset->byte)."
 ASSUMPTIONS = ["lengths are >= 1 (the classes assert length > 0)"]
-REQUIRED_CLASSES = ["split", "merge", "overwrite"]
+REQUIRED_CLASSES = ["split", "merge", "overwrite", "exact-fill"]
 BUDGET = {"quick": 600, "thorough": 3600}
 
 MAXO = 300
@@ -30,6 +30,7 @@ def span_ops():
     return st.lists(st.one_of(
         st.tuples(st.sampled_from(["add", "remove", "in", "badd", "bremove"]), _span()),
         st.tuples(st.sampled_from(["plus", "minus", "and", "iadd", "isub", "copy", "swap", "new_b"]), st.lists(_span(), max_size=4)),
+        st.tuples(st.sampled_from(["fill_gap", "in_run"]), st.tuples(st.integers(0, 50), st.just(1))),
     ), min_size=1, max_size=200)
 
 
@@ -38,6 +39,8 @@ def data_ops():
         st.tuples(st.just("add"), st.integers(0, MAXO), st.integers(1, 30), st.integers(0, 255)),
         st.tuples(st.sampled_from(["remove", "get", "pop"]), st.integers(0, MAXO), st.integers(1, 40), st.just(0)),
         st.tuples(st.sampled_from(["copy"]), st.just(0), st.just(0), st.just(0)),
+        # state-relative: resolved by the interpreter against the current model
+        st.tuples(st.sampled_from(["fill_gap", "extend_left", "extend_right", "get_run", "pop_run", "get_cross"]), st.integers(0, 50), st.integers(0, 5), st.integers(0, 255)),
     ), min_size=1, max_size=200)
 
 
@@ -83,6 +86,16 @@ def _runs(model):
             n += 1
         prev = x
     return n
+
+
+def _run_list(model):
+    out = []
+    for x in sorted(model):
+        if out and out[-1][0] + out[-1][1] == x:
+            out[-1][1] += 1
+        else:
+            out.append([x, 1])
+    return out
 
 
 def run_spans(case, ctx):
@@ -139,6 +152,20 @@ def run_spans(case, ctx):
             elif op == "isub":
                 a -= b
                 ma -= mb
+            elif op == "fill_gap":
+                runs = _run_list(ma)
+                if len(runs) >= 2:
+                    i = arg[0] % (len(runs) - 1)
+                    gs = runs[i][0] + runs[i][1]
+                    a.add(gs, runs[i + 1][0] - gs)
+                    ma |= rng(gs, runs[i + 1][0] - gs)
+                    classes.add("merge")
+                    classes.add("exact-fill")
+            elif op == "in_run":
+                runs = _run_list(ma)
+                if runs:
+                    r = runs[arg[0] % len(runs)]
+                    ctx.check(tuple(r) in a, "contains-mismatch", "%s: maximal run %r not reported as contained" % (what, r))
             elif op == "copy":
                 a = Spans(a)
             elif op == "swap":
@@ -152,8 +179,7 @@ def run_spans(case, ctx):
             return
         _cmp_spans(ctx, a, ma, what + " [a]")
         _cmp_spans(ctx, b, mb, what + " [b]")
-    classes.add("overwrite")  # not applicable to Spans; DataSpans shards produce it
-    ctx.note(sig=repr(case["ops"]), nontrivial=bool(classes & {"split", "merge", "intersect"}), classes=sorted(classes - {"overwrite"}),
+    ctx.note(sig=repr(case["ops"]), nontrivial=bool(classes & {"split", "merge", "intersect"}), classes=sorted(classes),
              sample={"which": "spans", "ops": case["ops"][:25], "n_ops": len(case["ops"])})
 
 
@@ -163,6 +189,37 @@ def run_data(case, ctx):
     m = {}
     classes = set()
     for i, (op, start, length, fill) in enumerate(case["ops"]):
+        runs = _run_list(set(m))
+        if op in ("fill_gap", "extend_left", "extend_right", "get_run", "pop_run", "get_cross"):
+            if not runs:
+                continue
+            r = runs[start % len(runs)]
+            nxt = runs[(start % len(runs)) + 1] if (start % len(runs)) + 1 < len(runs) else None
+            if op == "fill_gap":
+                if nxt is None:
+                    continue
+                op, start, length = "add", r[0] + r[1], nxt[0] - (r[0] + r[1])
+                classes.add("exact-fill")
+            elif op == "extend_right":
+                gap = (nxt[0] - (r[0] + r[1])) if nxt else 10
+                op, start, length = "add", r[0] + r[1], max(1, min(gap, length + 1))
+            elif op == "extend_left":
+                if r[0] == 0:
+                    continue
+                ln = min(r[0], length + 1)
+                op, start, length = "add", r[0] - ln, ln
+            elif op == "get_run":
+                op, start, length = "get", r[0], r[1]
+            elif op == "pop_run":
+                op, start, length = "pop", r[0], r[1]
+            elif op == "get_cross":
+                # a range that straddles an interior point of the run
+                if r[1] < 2:
+                    continue
+                mid = r[0] + 1 + (length % (r[1] - 1))
+                lo = max(r[0], mid - 1 - fill % 5)
+                hi = min(r[0] + r[1], mid + 1 + fill % 7)
+                op, start, length = "get", lo, hi - lo
         what = "step %d %s(%d,%d) before=%s" % (i, op, start, length, d.dump())
         try:
             if op == "add":
@@ -215,5 +272,13 @@ def run_data(case, ctx):
         ctx.check(got == m, "map-mismatch", "%s: held bytes differ from model at offsets %r" % (what, sorted(k for k in set(got) | set(m) if got.get(k) != m.get(k))[:10]))
         ctx.check(d.len() == len(m), "len-mismatch", what)
         ctx.check(set(d.get_spans().each()) == set(m), "get_spans-mismatch", what)
+        for (rs, rl) in _run_list(set(m)):
+            exp = bytes(m[rs + j] for j in range(rl))
+            got_run = d.get(rs, rl)
+            ctx.check(got_run == exp, "get-mismatch", "%s: after the step get(%d,%d) of a fully held run returned %r" % (what, rs, rl, got_run if got_run is None else "wrong bytes"))
+        rl_ = _run_list(set(m))
+        if len(rl_) >= 2:
+            g0 = rl_[0][0] + rl_[0][1]
+            ctx.check(d.get(rl_[0][0], rl_[1][0] - rl_[0][0] + 1) is None, "get-mismatch", "%s: get across an unheld gap returned data" % what)
     ctx.note(sig=repr(case["ops"]), nontrivial=bool(classes), classes=sorted(classes),
              sample={"which": "data", "ops": case["ops"][:25], "n_ops": len(case["ops"])})
